@@ -32,7 +32,12 @@ const (
 
 // stringConsts extracts the constant strings of a []string built as a
 // composite literal / varargs array (Slice of an Alloc with constant stores).
-func stringConsts(v ssa.Value) ([]string, bool) {
+func stringConsts(v ssa.Value) ([]string, bool) { return stringConstsR(v, nil) }
+
+// stringConstsR: as stringConsts; resolve, when given, maps a non-constant
+// element to the value it denotes in the current frame (a parameter's actual,
+// a field of a constant table's element).
+func stringConstsR(v ssa.Value, resolve func(ssa.Value) ssa.Value) ([]string, bool) {
 	if c, ok := v.(*ssa.Const); ok && c.IsNil() {
 		return nil, true
 	}
@@ -67,6 +72,9 @@ func stringConsts(v ssa.Value) ([]string, bool) {
 				return nil, false
 			}
 			s, ok := constString(st.Val)
+			if !ok && resolve != nil {
+				s, ok = constString(resolve(st.Val))
+			}
 			if !ok {
 				return nil, false
 			}
@@ -98,8 +106,10 @@ func semverCheck(ver string, specs []string) (bool, error) {
 
 // specsOfValue resolves a []string value to constants, looking through a call
 // to a function that returns a constant list (compatibleVersions()).
-func specsOfValue(v ssa.Value) ([]string, bool) {
-	if s, ok := stringConsts(v); ok {
+func specsOfValue(v ssa.Value) ([]string, bool) { return specsOfValueR(v, nil) }
+
+func specsOfValueR(v ssa.Value, resolve func(ssa.Value) ssa.Value) ([]string, bool) {
+	if s, ok := stringConstsR(v, resolve); ok {
 		return s, true
 	}
 	if c, ok := v.(*ssa.Call); ok {
@@ -193,17 +203,33 @@ func newVersEngine(p *Program) *versEngine {
 	if g, ok := p.Trie.Members["ErrIncompatible"].(*ssa.Global); ok {
 		e.errIncompat = g
 	}
-	if cv := p.Method(p.Trie, "SlimTrie", "compatibleVersions"); cv != nil {
+	// the compatible list: the second argument of the vers.IsCompatible call under Unmarshal — a
+	// constant []string, or the single constant list some function (method or not) returns
+	if e.un != nil {
 		n := 0
-		for _, r := range returnsOf(cv) {
-			if len(r.Results) == 1 {
-				if s, ok := stringConsts(r.Results[0]); ok {
-					e.compat = s
+		seen := map[*ssa.Function]bool{}
+		var scan func(f *ssa.Function, d int)
+		scan = func(f *ssa.Function, d int) {
+			if f == nil || seen[f] || d > 2 || len(f.Blocks) == 0 || !trieScope(f) {
+				return
+			}
+			seen[f] = true
+			for _, c := range callsIn(f) {
+				if calleeIs(c, idVersCompat) && len(c.Common().Args) == 2 {
 					n++
+					if s, ok := specsOfValue(c.Common().Args[1]); ok {
+						e.compat = s
+						e.compatOK = true
+					}
+					continue
 				}
+				scan(calleeOf(c), d+1)
 			}
 		}
-		e.compatOK = n == 1 && len(returnsOf(cv)) == 1
+		scan(e.un, 0)
+		if n != 1 {
+			e.compatOK = false
+		}
 	}
 	return e
 }
@@ -295,6 +321,326 @@ type vframe struct {
 	stVals  map[ssa.Value]bool
 	actual  map[ssa.Value]ssa.Value // parameter -> the caller's argument value (for message types)
 	parent  *vframe
+	iter    map[*ssa.Phi]int64 // current iteration of loops over constant tables (see tableLoopPhi)
+}
+
+// ---- loops over constant tables ------------------------------------------
+//
+// A maintainer may drive the loader from a table: "for _, step := range
+// upgradeSteps { if vers.Check(ver, step.spec) { step.apply(st) } }" or a local
+// list of (section name, message). When the table is a composite literal of
+// constant length — local, or a package-level variable assigned only by its
+// initialiser — the loop is unrolled: the index phi is bound to 0..N-1 and
+// fields of the current element resolve to the values the literal stores.
+
+// tableBase: the array behind a constant table slice.
+func tableBase(v ssa.Value) *ssa.Alloc {
+	switch x := v.(type) {
+	case *ssa.Slice:
+		if al, ok := x.X.(*ssa.Alloc); ok && x.Low == nil && x.High == nil {
+			if _, isArr := al.Type().(*types.Pointer).Elem().Underlying().(*types.Array); isArr {
+				return al
+			}
+		}
+	case *ssa.UnOp:
+		if x.Op != token.MUL {
+			return nil
+		}
+		g, ok := x.X.(*ssa.Global)
+		if !ok || g.Pkg == nil {
+			return nil
+		}
+		var base *ssa.Alloc
+		n := 0
+		for _, m := range g.Pkg.Members {
+			f, ok := m.(*ssa.Function)
+			if !ok {
+				continue
+			}
+			fs := append([]*ssa.Function{f}, f.AnonFuncs...)
+			for _, h := range fs {
+				instrsOf(h, func(_ *ssa.BasicBlock, in ssa.Instruction) {
+					if st, ok := in.(*ssa.Store); ok && st.Addr == ssa.Value(g) {
+						n++
+						if h.Name() == "init" {
+							base = tableBase(st.Val)
+						}
+					}
+				})
+			}
+		}
+		// methods are not package members: any other store to the global disqualifies it
+		for _, t := range g.Pkg.Prog.RuntimeTypes() {
+			_ = t
+		}
+		if n == 1 {
+			return base
+		}
+	}
+	return nil
+}
+
+func tableLen(v ssa.Value) (int64, bool) {
+	if al := tableBase(v); al != nil {
+		return al.Type().(*types.Pointer).Elem().Underlying().(*types.Array).Len(), true
+	}
+	return 0, false
+}
+
+// tableStore: the value the literal stores into element i (field k, or the element itself when k < 0).
+func tableStore(al *ssa.Alloc, i int64, k int) ssa.Value {
+	var out ssa.Value
+	n := 0
+	for _, ref := range *al.Referrers() {
+		ia, ok := ref.(*ssa.IndexAddr)
+		if !ok {
+			continue
+		}
+		if c, ok := constInt(ia.Index); !ok || c != i {
+			continue
+		}
+		for _, r2 := range *ia.Referrers() {
+			switch x := r2.(type) {
+			case *ssa.Store:
+				if x.Addr != ssa.Value(ia) {
+					continue
+				}
+				if k < 0 {
+					out = x.Val
+					n++
+					continue
+				}
+				// *elem = *complit: the field value is what the literal stores into the complit local
+				if ld, ok := x.Val.(*ssa.UnOp); ok && ld.Op == token.MUL {
+					if c, ok := ld.X.(*ssa.Alloc); ok {
+						for _, r3 := range *c.Referrers() {
+							fa, ok := r3.(*ssa.FieldAddr)
+							if !ok || fa.Field != k {
+								continue
+							}
+							for _, r4 := range *fa.Referrers() {
+								if st, ok := r4.(*ssa.Store); ok && st.Addr == ssa.Value(fa) {
+									out = st.Val
+									n++
+								}
+							}
+						}
+					}
+				}
+			case *ssa.FieldAddr:
+				if x.Field != k {
+					continue
+				}
+				for _, r3 := range *x.Referrers() {
+					if st, ok := r3.(*ssa.Store); ok && st.Addr == ssa.Value(x) {
+						out = st.Val
+						n++
+					}
+				}
+			}
+		}
+	}
+	if n != 1 {
+		return nil
+	}
+	return out
+}
+
+// tableLoopPhi: ph is the index of a range loop: phi [const, ph + 1].
+func tableLoopPhi(ph *ssa.Phi) (int64, bool) {
+	if len(ph.Edges) < 2 {
+		return 0, false
+	}
+	var start int64
+	okS, okI := false, true
+	nInc := 0
+	for _, ed := range ph.Edges {
+		if c, ok := constInt(ed); ok {
+			if okS && c != start {
+				return 0, false
+			}
+			start, okS = c, true
+			continue
+		}
+		inc := false
+		if bo, ok := ed.(*ssa.BinOp); ok && bo.Op == token.ADD && bo.X == ssa.Value(ph) {
+			if k, ok := constInt(bo.Y); ok && k == 1 {
+				inc = true
+				nInc++
+			}
+		}
+		if !inc {
+			okI = false
+		}
+	}
+	okI = okI && nInc > 0
+	if !okS || !okI {
+		return 0, false
+	}
+	// the loop test compares the index (or index+1) with the length of a constant table
+	bounded := false
+	for _, ref := range *ph.Referrers() {
+		cands := []ssa.Value{}
+		if bo, ok := ref.(*ssa.BinOp); ok {
+			cands = append(cands, bo)
+			if bo.Op == token.ADD && bo.Referrers() != nil {
+				for _, r2 := range *bo.Referrers() {
+					if b2, ok := r2.(*ssa.BinOp); ok {
+						cands = append(cands, b2)
+					}
+				}
+			}
+		}
+		for _, c := range cands {
+			bo := c.(*ssa.BinOp)
+			switch bo.Op {
+			case token.LSS, token.LEQ, token.GTR, token.GEQ:
+			default:
+				continue
+			}
+			for _, side := range []ssa.Value{bo.X, bo.Y} {
+				if call, ok := side.(*ssa.Call); ok {
+					if bi, ok := call.Call.Value.(*ssa.Builtin); ok && bi.Name() == "len" && len(call.Call.Args) == 1 {
+						if _, ok := tableLen(call.Call.Args[0]); ok {
+							bounded = true
+						}
+					}
+				}
+			}
+		}
+	}
+	return start, bounded
+}
+
+func (fr *vframe) intVal(v ssa.Value) (int64, bool) {
+	switch x := v.(type) {
+	case *ssa.Const:
+		return constInt(x)
+	case *ssa.Phi:
+		if fr.iter != nil {
+			if i, ok := fr.iter[x]; ok {
+				return i, true
+			}
+		}
+	case *ssa.BinOp:
+		a, ok1 := fr.intVal(x.X)
+		b, ok2 := fr.intVal(x.Y)
+		if ok1 && ok2 {
+			switch x.Op {
+			case token.ADD:
+				return a + b, true
+			case token.SUB:
+				return a - b, true
+			}
+		}
+	case *ssa.Call:
+		if bi, ok := x.Call.Value.(*ssa.Builtin); ok && bi.Name() == "len" && len(x.Call.Args) == 1 {
+			return tableLen(x.Call.Args[0])
+		}
+	}
+	return 0, false
+}
+
+// intCond folds an integer comparison of known values (the loop test of an unrolled table loop).
+func (fr *vframe) intCond(v ssa.Value) (bool, bool) {
+	bo, ok := v.(*ssa.BinOp)
+	if !ok {
+		return false, false
+	}
+	a, ok1 := fr.intVal(bo.X)
+	b, ok2 := fr.intVal(bo.Y)
+	if !ok1 || !ok2 {
+		return false, false
+	}
+	switch bo.Op {
+	case token.LSS:
+		return a < b, true
+	case token.LEQ:
+		return a <= b, true
+	case token.GTR:
+		return a > b, true
+	case token.GEQ:
+		return a >= b, true
+	case token.EQL:
+		return a == b, true
+	case token.NEQ:
+		return a != b, true
+	}
+	return false, false
+}
+
+// resolve maps a value to what it denotes on the current path: a parameter to
+// the caller's argument (resolved in the caller's frame), a field of the
+// current element of a constant table to the value the literal stores.
+func (fr *vframe) resolve(v ssa.Value) ssa.Value {
+	for d := 0; d < 8 && fr != nil; d++ {
+		if a, ok := fr.actual[v]; ok && fr.parent != nil {
+			return fr.parent.resolve(a)
+		}
+		var ia *ssa.IndexAddr
+		k := -1
+		switch x := v.(type) {
+		case *ssa.Field:
+			if ld, ok := x.X.(*ssa.UnOp); ok && ld.Op == token.MUL {
+				ia, _ = ld.X.(*ssa.IndexAddr)
+				k = x.Field
+			}
+		case *ssa.UnOp:
+			if x.Op == token.MUL {
+				if fa, ok := x.X.(*ssa.FieldAddr); ok {
+					ia, _ = fa.X.(*ssa.IndexAddr)
+					k = fa.Field
+					// the range variable: a local that is assigned, as a whole, only copies of table elements
+					if al, ok := fa.X.(*ssa.Alloc); ok && ia == nil {
+						var src *ssa.IndexAddr
+						n := 0
+						for _, ref := range *al.Referrers() {
+							if st, ok := ref.(*ssa.Store); ok && st.Addr == ssa.Value(al) {
+								n++
+								if ld, ok := st.Val.(*ssa.UnOp); ok && ld.Op == token.MUL {
+									src, _ = ld.X.(*ssa.IndexAddr)
+								}
+							}
+						}
+						if n == 1 && src != nil {
+							ia = src
+						}
+					}
+				} else if a2, ok := x.X.(*ssa.IndexAddr); ok {
+					ia = a2
+				}
+			}
+		}
+		if ia == nil {
+			return v
+		}
+		al := tableBase(ia.X)
+		if al == nil {
+			return v
+		}
+		i, ok := fr.intVal(ia.Index)
+		if !ok {
+			return v
+		}
+		nv := tableStore(al, i, k)
+		if nv == nil {
+			return v
+		}
+		v = nv
+	}
+	return v
+}
+
+func (fr *vframe) iterKey() string {
+	if len(fr.iter) == 0 {
+		return ""
+	}
+	var s []string
+	for ph, i := range fr.iter {
+		s = append(s, fmt.Sprintf("%s=%d", ph.Name(), i))
+	}
+	sort.Strings(s)
+	return strings.Join(s, ",")
 }
 
 // resolveArg follows parameters to the outermost caller's argument.
@@ -331,7 +677,7 @@ func (e *versEngine) fold(v ssa.Value, fr *vframe, ver string) (bool, bool) {
 	switch x := v.(type) {
 	case *ssa.Call:
 		if calleeIs(x, idVersCheck) && len(x.Call.Args) == 2 && fr.verVals[x.Call.Args[0]] {
-			specs, ok := specsOfValue(x.Call.Args[1])
+			specs, ok := specsOfValueR(x.Call.Args[1], fr.resolve)
 			if !ok {
 				e.undecided = append(e.undecided, "vers.Check with non-constant specs at "+e.p.Pos(x.Pos()))
 				return false, false
@@ -524,7 +870,7 @@ func msgTypeOfParseIn(c *ssa.Call, fr *vframe) (string, ssa.Value) {
 	}
 	a := c.Call.Args[1]
 	if fr != nil {
-		a = fr.resolveArg(a)
+		a = fr.resolve(a)
 	}
 	if mi, ok := a.(*ssa.MakeInterface); ok {
 		a = mi.X
@@ -556,7 +902,7 @@ func (e *versEngine) explore(ver string) ([]vpath, bool) {
 		}
 	})
 	memo := map[string]bool{}
-	var run func(fr *vframe, b *ssa.BasicBlock, start int, ev []vevent, seen map[*ssa.BasicBlock]int, depth int, k func(ev []vevent, ret *ssa.Return))
+	var run func(fr *vframe, b *ssa.BasicBlock, start int, ev []vevent, seen map[string]int, depth int, k func(ev []vevent, ret *ssa.Return))
 	evKey := func(ev []vevent) string {
 		var s []string
 		for _, x := range ev {
@@ -564,19 +910,45 @@ func (e *versEngine) explore(ver string) ([]vpath, bool) {
 		}
 		return strings.Join(s, ";")
 	}
-	run = func(fr *vframe, b *ssa.BasicBlock, start int, ev []vevent, seen map[*ssa.BasicBlock]int, depth int, k func(ev []vevent, ret *ssa.Return)) {
+	run = func(fr *vframe, b *ssa.BasicBlock, start int, ev []vevent, seen map[string]int, depth int, k func(ev []vevent, ret *ssa.Return)) {
 		if len(out) > e.maxPaths {
 			truncated = true
 			return
 		}
 		if start == 0 {
-			if seen[b] >= 1 {
+			// index phis of loops over constant tables advance by one per arrival
+			for _, in := range b.Instrs {
+				ph, ok := in.(*ssa.Phi)
+				if !ok {
+					break
+				}
+				if st, ok := tableLoopPhi(ph); ok {
+					if fr.iter == nil {
+						fr.iter = map[*ssa.Phi]int64{}
+					}
+					old, had := fr.iter[ph]
+					if had {
+						fr.iter[ph] = old + 1
+					} else {
+						fr.iter[ph] = st
+					}
+					defer func() {
+						if had {
+							fr.iter[ph] = old
+						} else {
+							delete(fr.iter, ph)
+						}
+					}()
+				}
+			}
+			sk := fmt.Sprintf("%d|%s", b.Index, fr.iterKey())
+			if seen[sk] >= 1 {
 				return
 			}
-			seen[b]++
-			defer func() { seen[b]-- }()
+			seen[sk]++
+			defer func() { seen[sk]-- }()
 			if depth == 0 {
-				mk := fmt.Sprintf("%p|%d|%s", fr.fn, b.Index, evKey(ev))
+				mk := fmt.Sprintf("%p|%d|%s|%s", fr.fn, b.Index, fr.iterKey(), evKey(ev))
 				if memo[mk] {
 					return
 				}
@@ -603,6 +975,12 @@ func (e *versEngine) explore(ver string) ([]vpath, bool) {
 					ev = append(ev, vevent{kind: "parse", detail: t, pos: in.Pos(), instr: in})
 				default:
 					g := calleeOf(in)
+					if g == nil && !in.Call.IsInvoke() {
+						// a function taken from the current element of a constant table
+						if f2, ok := fr.resolve(in.Call.Value).(*ssa.Function); ok {
+							g = f2
+						}
+					}
 					if g == nil || !trieScope(g) || len(g.Blocks) == 0 {
 						break
 					}
@@ -630,7 +1008,7 @@ func (e *versEngine) explore(ver string) ([]vpath, bool) {
 						}
 						rest := i + 1
 						ev2 := append(append([]vevent{}, ev...), vevent{kind: "enter", detail: g.Name(), pos: in.Pos()})
-						run(nf, g.Blocks[0], 0, ev2, map[*ssa.BasicBlock]int{}, depth+1, func(evs []vevent, cret *ssa.Return) {
+						run(nf, g.Blocks[0], 0, ev2, map[string]int{}, depth+1, func(evs []vevent, cret *ssa.Return) {
 							cls := ""
 							if cret != nil && len(cret.Results) > 0 {
 								last := cret.Results[len(cret.Results)-1]
@@ -668,6 +1046,14 @@ func (e *versEngine) explore(ver string) ([]vpath, bool) {
 				}
 				return
 			case *ssa.If:
+				if val, ok := fr.intCond(in.Cond); ok {
+					if val {
+						run(fr, b.Succs[0], 0, ev, seen, depth, k)
+					} else {
+						run(fr, b.Succs[1], 0, ev, seen, depth, k)
+					}
+					return
+				}
 				if val, ok := e.fold(in.Cond, fr, ver); ok {
 					gate := "pass"
 					if !val {
@@ -717,7 +1103,7 @@ func (e *versEngine) explore(ver string) ([]vpath, bool) {
 			}
 		}
 	}
-	run(root, un.Blocks[0], 0, nil, map[*ssa.BasicBlock]int{}, 0, func(ev []vevent, ret *ssa.Return) {
+	run(root, un.Blocks[0], 0, nil, map[string]int{}, 0, func(ev []vevent, ret *ssa.Return) {
 		cls := "noreturn"
 		if ret != nil && len(ret.Results) == 1 {
 			cls = e.errClassIn(ret.Results[0], 0, ev)
